@@ -226,12 +226,12 @@ theorem TellInv.base : Base E (TellInv E τ) (okTold τ) where
     · exact hcc e he.1
     · rw [he]; exact ⟨m, rfl, hm⟩
   modCtl := fun f h => Pres.modS_of (fun s hs =>
-    TellInv.of_same E τ (h s).1 (h s).2.2.1 (h s).2.2.2.2.2.2.2.2 hs)
+    TellInv.of_same E τ (h s).1 (h s).2.2.1 (h s).2.2.2.2.2.2.2.2.1 hs)
   setHst := fun _ => Pres.modS_of (fun s hs => TellInv.of_same E τ (s := s) rfl rfl (Or.inl rfl) hs)
   addCustom := fun _ _ _ _ => Pres.modS_of (fun s hs => TellInv.of_same E τ (s := s) rfl rfl (Or.inl rfl) hs)
 
 theorem TellInv.modId (f : State → State) (h : IdCtl f) : Pres (TellInv E τ) (modS f) :=
-  Pres.modS_of (fun s hs => TellInv.of_same E τ (h s).1 (h s).2.2.1 (h s).2.2.2.2.2 hs)
+  Pres.modS_of (fun s hs => TellInv.of_same E τ (h s).1 (h s).2.2.1 (h s).2.2.2.2.2.1 hs)
 
 theorem TellInv.full : Full E (TellInv E τ) (okTold τ) (okTold τ) (fun h => h.srcInc ≤ τ h.src) where
   toBase := TellInv.base E τ
